@@ -45,6 +45,10 @@ def c_print(c): return And(c >= 32, c <= 126)
 def c_ok(c): return Or(c_alnum(c), c == 95)
 
 
+# int(<string>) as an uninterpreted function of (length, characters); extensionality is stated where it is needed
+INTVAL = Function('intval_of_numeral', IntSort(), CHR, IntSort())
+
+
 def concat(x, y):
     r = fresh_str('cat'); k = Int('k_cat%d' % next(_n))
     r.facts = [r.n == x.n + y.n,
@@ -135,6 +139,10 @@ class StrSE:
                 if e.attr in self.consts: return k(st, ('int', IntVal(self.consts[e.attr])))
                 raise Unsupported('self.' + e.attr)
             return self.ev(st, e.value, lambda s, v: self.attr(s, v, e.attr, k))
+        if isinstance(e, ast.Tuple):
+            return self.evs(st, e.elts, lambda s, vs: k(s, ('tuple', vs)))
+        if isinstance(e, ast.UnaryOp) and isinstance(e.op, ast.USub) and isinstance(e.operand, ast.Constant) and isinstance(e.operand.value, int):
+            return k(st, ('int', IntVal(-e.operand.value)))
         if isinstance(e, ast.UnaryOp) and isinstance(e.op, ast.Not):
             return self.ev(st, e.operand, lambda s, v: k(s, ('bool', Not(self.truth(v)))))
         if isinstance(e, ast.BoolOp):
@@ -204,6 +212,12 @@ class StrSE:
                 return k(st, ('bool', t if isinstance(op, ast.Is) else Not(t)))
             if a[0] == 'bool' and b[0] == 'bool':
                 t = a[1] == b[1]; return k(st, ('bool', t if isinstance(op, ast.Is) else Not(t)))
+        if isinstance(op, (ast.In, ast.NotIn)) and a[0] == 'str' and b[0] == 'str':
+            # "<one character>" in s: some position of s holds it (substring search is supported for single characters only)
+            j = Int('k_in%d' % next(_n))
+            if not self._is_single_char(st, a[1]): raise Unsupported('substring test with a needle that is not one character')
+            t = Exists([j], And(0 <= j, j < b[1].n, b[1].a[j] == a[1].a[0]))
+            return k(st, ('bool', t if isinstance(op, ast.In) else Not(t)))
         if isinstance(op, (ast.In, ast.NotIn)) and a[0] == 'chr' and b[0] == 'cset':
             t = Or([a[1] == v for v in b[1]])
             return k(st, ('bool', t if isinstance(op, ast.In) else Not(t)))
@@ -237,6 +251,17 @@ class StrSE:
                 s.pc += [r.n >= 1, ForAll([j], Implies(And(0 <= j, j < r.n), c_digit(r.a[j])), patterns=[r.a[j]]), v[1] >= 0]
                 k(s, ('str', r))
             return self.ev(st, e.args[0], kk)
+        if name == 'print':
+            return k(st, ('none',))
+        if name == 'int' and len(e.args) == 1 and isinstance(e.args[0], (ast.Name, ast.Subscript)):
+            # int(<string>): an uninterpreted function of the string's content (decimal parsing itself is not encoded); a string that is
+            # not a decimal numeral raises ValueError -- the caller's precondition decides whether that exit is reachable
+            def kk(s, v):
+                if v[0] != 'str': raise Unsupported('int of ' + v[0])
+                x = v[1]; j = Int('k_int%d' % next(_n))
+                numeral = And(x.n >= 1, ForAll([j], Implies(And(0 <= j, j < x.n), c_digit(x.a[j])), patterns=[x.a[j]]))
+                self.branch(s, numeral, lambda a: k(a, ('int', INTVAL(x.n, x.a))), lambda b: self.exit(b, 'ValueError'))
+            return self.ev(st, e.args[0], kk)
         if name == 'int':
             # int(re.search(r"\d+", <suffix>).group()): the number inside the matched suffix; only its non-negativity is used
             return k(st, ('int', Int('num%d' % next(_n)))) if self._num_ok(st) else None
@@ -247,6 +272,23 @@ class StrSE:
                 m = f.attr
                 if recv[0] == 'chr' and m in ('isalpha', 'isalnum', 'isdigit'):
                     t = {'isalpha': c_alpha, 'isalnum': c_alnum, 'isdigit': c_digit}[m](recv[1]); return k(s, ('bool', t))
+                if recv[0] == 'str' and m in ('find', 'rfind') and 1 <= len(e.args) <= 2:
+                    def with_args(s2, vs):
+                        needle = vs[0]
+                        if needle[0] != 'str' or not self._is_single_char(s2, needle[1]): raise Unsupported('%s of something that is not one character' % m)
+                        ch = needle[1].a[0]; x = recv[1]
+                        lo = clamp_index(vs[1][1], x.n) if len(vs) > 1 else IntVal(0)
+                        r_ = Int('%s%d' % (m, next(_n))); j = Int('k_fd%d' % next(_n))
+                        if m == 'find':
+                            found = And(lo <= r_, r_ < x.n, x.a[r_] == ch, ForAll([j], Implies(And(lo <= j, j < r_), x.a[j] != ch), patterns=[x.a[j]]))
+                            none = And(r_ == -1, ForAll([j], Implies(And(lo <= j, j < x.n), x.a[j] != ch), patterns=[x.a[j]]))
+                        else:
+                            if len(vs) > 1: raise Unsupported('rfind with a start index')
+                            found = And(0 <= r_, r_ < x.n, x.a[r_] == ch, ForAll([j], Implies(And(r_ < j, j < x.n), x.a[j] != ch), patterns=[x.a[j]]))
+                            none = And(r_ == -1, ForAll([j], Implies(And(0 <= j, j < x.n), x.a[j] != ch), patterns=[x.a[j]]))
+                        s2.pc.append(Or(found, none))
+                        return k(s2, ('int', r_))
+                    return self.evs(s, e.args, with_args)
                 if recv[0] == 'str' and m == 'lower':
                     return k(s, self.add_str(s, lower(recv[1])))
                 if recv[0] == 'chr' and m == 'lower':
@@ -258,6 +300,11 @@ class StrSE:
                 raise Unsupported('method %s on %s' % (m, recv[0]))
             return self.ev(st, f.value, kk)
         raise Unsupported('call ' + name)
+
+    def _is_single_char(self, st, x):
+        """is the string known to have length one (a literal)?"""
+        s = SimpleSolver(); s.set('timeout', 1000); s.add(st.pc); s.add(x.n != 1)
+        return s.check() == unsat
 
     def _num_ok(self, st):
         st.pc.append(BoolVal(True)); return True
@@ -300,6 +347,8 @@ class StrSE:
         s0, rest = stmts[0], stmts[1:]
         nxt = lambda s: self.block(s, rest, knext, kret, fn)
         if isinstance(s0, ast.Expr) and isinstance(s0.value, ast.Constant): return nxt(st)
+        if isinstance(s0, ast.Expr) and isinstance(s0.value, ast.Call) and ast.unparse(s0.value.func) == 'print':
+            return nxt(st)               # output only
         if isinstance(s0, ast.Return):
             if s0.value is None: return kret(st, ('none',))
             return self.ev(st, s0.value, kret)
